@@ -581,6 +581,10 @@ def eigen_oracle(spec):
                 v = V[s]
                 raw = np.asarray(pick(vecs, sort, s, t))
                 dv = vec_deltas(raw, m['noise']['chains'], what + ' state %d t=%d' % (s, t))
+                if not np.all(np.isfinite(dv)) and float(np.min(gt)) < 1e-6:
+                    # two *other* states exactly degenerate at this timeslice: the derivative of an eigen-decomposition is not
+                    # defined there (1 / (lambda_i - lambda_j)); a measure-zero input of the table models, not judged
+                    continue
                 den = float(v @ G0 @ v)
                 num = float(v @ Gt @ v)
                 dnum = 2 * (dv.T @ (Gt @ v)) + np.einsum('i,ijc,j->c', v, dt, v)
